@@ -182,7 +182,9 @@ def _compute_integral_ir(
         entity_type,
         initial_terminals.values(),
         existing_tables,
-        use_sum_factorization=p["sum_factorization"],
+        # Sum factorisation only applies to rules built as tensor products
+        # (cell integrals on quadrilaterals/hexahedra); elsewhere it has no effect
+        use_sum_factorization=p["sum_factorization"] and quadrature_rule.has_tensor_factors,
         is_mixed_dim=is_mixed_dim,
         rtol=p["table_rtol"],
         atol=p["table_atol"],
